@@ -9,6 +9,7 @@ Generated descriptions (mode `synthetic`): random protocol sets of 2..4 files de
 bitfields, hex / shifted / padded entry values, zero entries, equal entry values; loaded as the tool's whole protocol set
 (plus the core protocol), then the same per-message sweep as for the shipped set."""
 import itertools
+import re
 import os
 import tempfile
 
@@ -230,6 +231,20 @@ def run_ifaces(ctx, spec, synthetic=None):
         extra_case = {'xml': synthetic['xml']}
     g = Gen(cands, rng)
     unknown = ['zz_unknown_v1']
+    # names no loaded XML describes although one a character or a version number away is described: next year's revision of an
+    # unstable protocol, a vendor's variant.  They are as undescribed as zz_unknown_v1
+    near_names = {}
+    for n in rng.sample(mine, min(len(mine), 8)):
+        m = re.search(r'_v(\d+)$', n)
+        vs = [n + 'x', n[:-1], 'z' + n, n.capitalize(), n + '_v2', n + '_unstable']
+        if m:
+            k = int(m.group(1))
+            stem = n[:m.start()]
+            vs += ['%s_v%d' % (stem, k + 1), '%s_v%d' % (stem, k + 10), '%s_v%d' % (stem, k + 100), stem, stem[1:] if stem.startswith('z') else 'z' + stem, '%s_v0%d' % (stem, k)]
+        for v in rng.sample(vs, min(len(vs), 4)):
+            if v and v not in cands and v not in near_names and re.match(r'^[A-Za-z_][A-Za-z0-9_]*$', v):
+                near_names[v] = n
+    unknown += sorted(near_names)
     g.setup(names, unknown)
     skipped = 0
     api_checks = 0
@@ -285,6 +300,16 @@ def run_ifaces(ctx, spec, synthetic=None):
             g.message_line('zz_unknown_v1', 'frob', [('int', 5), ('nil',), ('str',), ('obj', 'wl_registry', 2), ('fixed',), ('array',), ('fd',),
                                                     ('new', 'zz_other', g.next_new + 1)], sent)
             g.next_new += 1
+    for v in sorted(near_names):
+        cs = cands[near_names[v]]
+        ms = sorted(m for m in cs[0]['messages'] if (near_names[v], m) != ('wl_registry', 'bind'))
+        for msg in rng.sample(ms, min(len(ms), 3)):
+            md = cs[0]['messages'][msg]
+            base = g.default_args(near_names[v], msg, md['args'])
+            if base is None:
+                continue
+            g.message_line(v, msg, base, not md['is_event'])
+            ctx.count('lines_on_an_undescribed_neighbour_of_a_described_interface')
     s = Session()
     s.feed([l + '\n' for l in g.lines])
     per = s.per_read()
